@@ -139,6 +139,17 @@ theorem C04_project_iff (taskClips annClips : List α) :
     · simp [projectOk, mem_toSet, h, ih]
     · simp [projectOk, mem_toSet, h]
 
+/-- the evaluation order the driver uses (task clips collected once) decides the same -/
+theorem C04_project_fast (taskClips annClips : List α) :
+    projectOkFast taskClips annClips = projectOk taskClips annClips := by
+  induction annClips with
+  | nil => simp [projectOkFast, projectOk]
+  | cons c cs ih =>
+    simp only [projectOkFast, List.all_cons] at ih ⊢
+    by_cases h : c ∈ toSet taskClips
+    · simp [projectOk, h, ih]
+    · simp [projectOk, h]
+
 /-- a clip never starts after it ends -/
 theorem C04_clip_iff (s e : Rat) : clipOk s e = true ↔ s ≤ e := by
   simp [clipOk, Rat.not_lt]
